@@ -2,7 +2,9 @@
 # Zero-alarm sweep on the unchanged tree: every check, quick tier, several VERIF_SEED values.
 #   tools/seed_sweep.sh <first-seed> <last-seed> [tier]
 cd "$(dirname "$0")/.." || exit 2
-./setup >/dev/null 2>&1 || { echo "setup failed"; exit 2; }
+# under `vp run --with-repo` use the snapshot of /repo, so that nothing done to /repo meanwhile matters
+[ -n "${VP_RUN_REPO:-}" ] && { VERIF_REPO="$VP_RUN_REPO"; export VERIF_REPO; }
+if [ -z "${VERIF_REPO:-}" ]; then ./setup >/dev/null 2>&1 || { echo "setup failed"; exit 2; }; fi
 VERIF_EVIDENCE_DIR="$(pwd)/sim/scratch/evidence-sweep"; export VERIF_EVIDENCE_DIR; mkdir -p "$VERIF_EVIDENCE_DIR"
 bad=0
 for s in $(seq "$1" "$2"); do
